@@ -296,29 +296,31 @@ injected::injected(const injected& o) : tag(o.tag)
     ++W.injected_copies;
 }
 
-// element type; NX = true: all operations noexcept (allocate_array_unique then takes the no-rollback path)
-template <bool NX>
+// element type; NXC / NXM / NXO: copy / move / default+value constructors are noexcept (and then never fail).
+// all true: allocate_array_unique takes the no-rollback path. The mixed variants make conditional exception
+// specifications inside the library observable (noexcept move + throwing copy, and the mirror image).
+template <bool NXC, bool NXM, bool NXO>
 struct elem_t
 {
     long long value;
     unsigned  serial;
     unsigned  magic;
 
-    elem_t() noexcept(NX) : value(-1), magic(0xE1E2E3E4u)
+    elem_t() noexcept(NXO) : value(-1), magic(0xE1E2E3E4u)
     {
-        serial = W.on_ctor(this, K_DEFAULT, !NX);
+        serial = W.on_ctor(this, K_DEFAULT, !NXO);
     }
-    explicit elem_t(int v) noexcept(NX) : value(v), magic(0xE1E2E3E4u)
+    explicit elem_t(int v) noexcept(NXO) : value(v), magic(0xE1E2E3E4u)
     {
-        serial = W.on_ctor(this, K_VALUE, !NX);
+        serial = W.on_ctor(this, K_VALUE, !NXO);
     }
-    elem_t(const elem_t& o) noexcept(NX) : value(o.value), magic(0xE1E2E3E4u)
+    elem_t(const elem_t& o) noexcept(NXC) : value(o.value), magic(0xE1E2E3E4u)
     {
-        serial = W.on_ctor(this, K_COPY, !NX);
+        serial = W.on_ctor(this, K_COPY, !NXC);
     }
-    elem_t(elem_t&& o) noexcept(NX) : value(o.value), magic(0xE1E2E3E4u)
+    elem_t(elem_t&& o) noexcept(NXM) : value(o.value), magic(0xE1E2E3E4u)
     {
-        serial = W.on_ctor(this, K_MOVE, !NX);
+        serial = W.on_ctor(this, K_MOVE, !NXM);
     }
     elem_t& operator=(const elem_t&) = delete;
     ~elem_t()
@@ -326,8 +328,15 @@ struct elem_t
         W.on_dtor(this, &serial);
     }
 };
-using elem    = elem_t<false>;
-using elem_nx = elem_t<true>;
+using elem    = elem_t<false, false, false>;
+using elem_nx = elem_t<true, true, true>;
+using elem_mc = elem_t<false, true, false>; // noexcept move, throwing copy (the usual resource-owning class)
+using elem_cm = elem_t<true, false, false>; // throwing move, noexcept copy
+static_assert(std::is_nothrow_move_constructible<elem_mc>::value && !std::is_nothrow_copy_constructible<elem_mc>::value,
+              "elem_mc");
+static_assert(!std::is_nothrow_move_constructible<elem_cm>::value && std::is_nothrow_copy_constructible<elem_cm>::value,
+              "elem_cm");
+static_assert(sizeof(elem_mc) == sizeof(elem) && sizeof(elem_cm) == sizeof(elem), "same layout");
 static_assert(!noexcept(elem()), "elem() must be potentially throwing");
 static_assert(noexcept(elem_nx()), "elem_nx() must be noexcept");
 
@@ -524,10 +533,16 @@ struct src_env
 {
     alog              log;
     log_alloc         alloc{&log};
-    std::vector<elem> elems;
-    std::vector<int>  ints;
-    void              fill(int n)
+    std::vector<elem>    elems;
+    std::vector<int>     ints;
+    std::vector<elem_mc> mc; // one source each for the value-category helpers
+    std::vector<elem_cm> cm;
+    void                 fill(int n)
     {
+        mc.reserve(1);
+        cm.reserve(1);
+        mc.emplace_back(300);
+        cm.emplace_back(301);
         elems.reserve(std::size_t(n));
         for (int i = 0; i != n; ++i)
         {
@@ -1056,6 +1071,9 @@ static std::size_t need_joint(int n, int slack)
 // single objects: one construction
 #define SINGLE(NAME, NEED, ...)                                                                                    \
     HELPER(NAME, 1, 1, true, pts_one, NEED, false, prep_src<A>, no_ctx, 1, 1, 1, W.go(); return __VA_ARGS__;)
+// single objects, argument value categories; THROWING = the constructor that actually runs can throw
+#define SINGLE_VC(NAME, THROWING, NEED, ...)                                                                       \
+    HELPER(NAME, 1, 1, THROWING, pts_one, NEED, false, prep_src<A>, no_ctx, 1, 1, 1, W.go(); return __VA_ARGS__;)
 // arrays through allocate_unique<T[]>
 #define ARRAY(NAME, THROWING, ...)                                                                                 \
     HELPER(NAME, 0, 16, THROWING, pts_n, need_elem, false, prep_src<A>, no_ctx, 1, c.n, c.n, W.go();               \
@@ -1095,6 +1113,35 @@ static void add_helpers(std::vector<helper_entry>& out)
     SINGLE("shared.value", need_shared, fm::allocate_shared<elem>(a, 7))
     SINGLE("shared.copy", need_shared, fm::allocate_shared<elem>(a, static_cast<const elem&>(s.elems[0])))
     SINGLE("shared.move", need_shared, fm::allocate_shared<elem>(a, std::move(s.elems[0])))
+
+    //--- argument value categories x mixed exception specifications (lvalue / const lvalue run the copy ctor,
+    //    rvalue runs the move ctor; the failure is injected into the constructor that runs, if it can throw) ----
+#define VALUE_CATEGORIES(PFX, NEED, CALL_MC, CALL_CM)                                                              \
+    SINGLE_VC(PFX ".mc.lvalue", true, NEED, CALL_MC(s.mc[0]))                                                      \
+    SINGLE_VC(PFX ".mc.const_lvalue", true, NEED, CALL_MC(static_cast<const elem_mc&>(s.mc[0])))                   \
+    SINGLE_VC(PFX ".mc.rvalue", false, NEED, CALL_MC(std::move(s.mc[0])))                                          \
+    SINGLE_VC(PFX ".cm.lvalue", false, NEED, CALL_CM(s.cm[0]))                                                     \
+    SINGLE_VC(PFX ".cm.const_lvalue", false, NEED, CALL_CM(static_cast<const elem_cm&>(s.cm[0])))                  \
+    SINGLE_VC(PFX ".cm.rvalue", true, NEED, CALL_CM(std::move(s.cm[0])))
+#define U_MC(ARG) fm::allocate_unique<elem_mc>(a, ARG)
+#define U_CM(ARG) fm::allocate_unique<elem_cm>(a, ARG)
+#define UA_MC(ARG) fm::allocate_unique<elem_mc>(fm::any_allocator{}, a, ARG)
+#define UA_CM(ARG) fm::allocate_unique<elem_cm>(fm::any_allocator{}, a, ARG)
+#define S_MC(ARG) fm::allocate_shared<elem_mc>(a, ARG)
+#define S_CM(ARG) fm::allocate_shared<elem_cm>(a, ARG)
+    VALUE_CATEGORIES("unique", need_elem, U_MC, U_CM)
+    if constexpr (Fix::any_ok)
+    {
+        VALUE_CATEGORIES("unique_any", need_elem, UA_MC, UA_CM)
+    }
+    VALUE_CATEGORIES("shared", need_shared, S_MC, S_CM)
+#undef U_MC
+#undef U_CM
+#undef UA_MC
+#undef UA_CM
+#undef S_MC
+#undef S_CM
+#undef VALUE_CATEGORIES
 
     //--- arrays: allocate_unique<T[]>(alloc, n) ----------------------------------------------------------
     ARRAY("unique_array", true, fm::allocate_unique<elem[]>(a, n))
@@ -1142,6 +1189,7 @@ static void add_helpers(std::vector<helper_entry>& out)
     JARR("jarr.move", W.go(); return std::make_unique<jarray_t>(std::move(x.src->arr), *x.host);)
 }
 #undef SINGLE
+#undef SINGLE_VC
 #undef ARRAY
 #undef JOINT
 #undef JOINT2
@@ -1202,15 +1250,31 @@ static int guarded_run(const helper_entry* h, const case_id* c, verdict* v)
     return out;
 }
 
+// std::terminate() inside a run (e.g. an exception hitting a noexcept boundary inside the library instead of
+// propagating) is recorded and contained like an abort
+static volatile int g_terminate_calls = 0;
+static void         h_terminate()
+{
+    g_terminate_calls = g_terminate_calls + 1;
+    guard_escape(OUT_ABORTED);
+}
+
 static void run_case(const helper_entry& h, const case_id& c, verdict& v)
 {
-    int out = guarded_run(&h, &c, &v);
+    int term0 = g_terminate_calls;
+    int out   = guarded_run(&h, &c, &v);
     if (out != OUT_OK)
     {
         W.disarm();
-        v.add(std::string("run-") + outcome_name(out),
-              fmt("the run did not return normally: %s (%d constructions into the armed window)", outcome_name(out),
-                  W.ops));
+        if (g_terminate_calls != term0)
+            v.add("terminate-instead-of-exception",
+                  fmt("std::terminate() was called %d constructions into the armed window%s: the constructor's "
+                      "exception did not propagate out of the helper",
+                      W.ops, W.failing_kind >= 0 ? fmt(" (after the injected %s failure)", okind_name(W.failing_kind)).c_str() : ""));
+        else
+            v.add(std::string("run-") + outcome_name(out),
+                  fmt("the run did not return normally: %s (%d constructions into the armed window)", outcome_name(out),
+                      W.ops));
         for (auto& r : W.lib_reports)
             v.add(r.tag, r.detail);
         v.outcome = outcome_name(out);
@@ -1271,6 +1335,7 @@ int main(int argc, char** argv)
     }
     double t0 = now_s();
     install_guards(5000);
+    std::set_terminate(h_terminate);
     auto prev_leak = fm::set_leak_handler(h_leak);
     fm::set_invalid_pointer_handler(h_invalid);
     fm::set_buffer_overflow_handler(h_overflow);
